@@ -20,7 +20,7 @@ META = {
     'bounds': {
         'quick': '7 start states x every history of 2 steps out of 29 operation instances (14 kinds over keys 0, 1, 9, '
                  'highest present, fresh); resid/charge_group unbounded integers',
-        'thorough': 'histories of 3 steps (first step out of the 10 most state-changing instances)',
+        'thorough': 'histories of 3 steps (first step out of the 6 most state-changing instances)',
     },
     'stubs': [],
     'assumptions': ["'last atom' of the receiving molecule = the atom with the highest key (the code's stated assumption)",
@@ -327,7 +327,7 @@ INSTANCES = [
     (12, 0, 1),
     (13, 0, 0), (13, 'T', 0),
 ]
-FIRST_OPS_THOROUGH = [0, 1, 2, 5, 6, 9, 11, 14, 19, 20]
+FIRST_OPS_THOROUGH = [0, 2, 6, 9, 19, 20]
 
 
 def _key(expr, mol):
